@@ -349,4 +349,65 @@ theorem get_set_idx_small (x : UInt16) (v : UInt8) (hv : v.toNat < 8) :
     (flagBlockSizeIndex (setBlockSizeIndex x v)).toNat = v.toNat := by
   rw [get_set_idx]; omega
 
+/-! The one-bit setters (what the options apply) leave the block-size index as it was. -/
+
+/-- clearing / setting bits below bit 12 does not change the bits from 12 up -/
+theorem hi_unchanged (a c b : Nat) (ha : a < 65536) (hc : c >>> 12 = 15) (hb : b < 4096) :
+    ((a &&& c) ||| b) / 4096 = a / 4096 := by
+  have e4096 : (4096 : Nat) = 2^12 := by decide
+  rw [e4096, ← Nat.shiftRight_eq_div_pow, ← Nat.shiftRight_eq_div_pow, Nat.shiftRight_or_distrib,
+    Nat.shiftRight_and_distrib, hc]
+  have hb0 : b >>> 12 = 0 := by
+    rw [Nat.shiftRight_eq_div_pow]; exact Nat.div_eq_of_lt (by omega)
+  have h15 : (15 : Nat) = 2^4 - 1 := by decide
+  rw [hb0, Nat.or_zero, h15, Nat.and_two_pow_sub_one_eq_mod]
+  apply Nat.mod_eq_of_lt
+  rw [Nat.shiftRight_eq_div_pow]
+  omega
+
+theorem idx_set_cc (x : UInt16) (v : Bool) : flagBlockSizeIndex (setContentChecksum x v) = flagBlockSizeIndex x := by
+  apply UInt8.toNat_inj.mp
+  rw [idx_arith, idx_arith]
+  unfold setContentChecksum
+  have hx := x.toNat_lt
+  split
+  · rw [UInt16.toNat_or, UInt16.toNat_and, n4, c4, hi_unchanged _ _ _ (by omega) (by decide) (by decide)]
+  · rw [UInt16.toNat_and, n4]
+    have := hi_unchanged x.toNat 65531 0 (by omega) (by decide) (by decide)
+    rw [Nat.or_zero] at this
+    rw [this]
+theorem idx_set_size (x : UInt16) (v : Bool) : flagBlockSizeIndex (setSize x v) = flagBlockSizeIndex x := by
+  apply UInt8.toNat_inj.mp
+  rw [idx_arith, idx_arith]
+  unfold setSize
+  have hx := x.toNat_lt
+  split
+  · rw [UInt16.toNat_or, UInt16.toNat_and, n8, c8, hi_unchanged _ _ _ (by omega) (by decide) (by decide)]
+  · rw [UInt16.toNat_and, n8]
+    have := hi_unchanged x.toNat 65527 0 (by omega) (by decide) (by decide)
+    rw [Nat.or_zero] at this
+    rw [this]
+theorem idx_set_bc (x : UInt16) (v : Bool) : flagBlockSizeIndex (setBlockChecksum x v) = flagBlockSizeIndex x := by
+  apply UInt8.toNat_inj.mp
+  rw [idx_arith, idx_arith]
+  unfold setBlockChecksum
+  have hx := x.toNat_lt
+  split
+  · rw [UInt16.toNat_or, UInt16.toNat_and, n16, c16, hi_unchanged _ _ _ (by omega) (by decide) (by decide)]
+  · rw [UInt16.toNat_and, n16]
+    have := hi_unchanged x.toNat 65519 0 (by omega) (by decide) (by decide)
+    rw [Nat.or_zero] at this
+    rw [this]
+theorem idx_set_bi (x : UInt16) (v : Bool) : flagBlockSizeIndex (setBlockIndependence x v) = flagBlockSizeIndex x := by
+  apply UInt8.toNat_inj.mp
+  rw [idx_arith, idx_arith]
+  unfold setBlockIndependence
+  have hx := x.toNat_lt
+  split
+  · rw [UInt16.toNat_or, UInt16.toNat_and, n32, c32, hi_unchanged _ _ _ (by omega) (by decide) (by decide)]
+  · rw [UInt16.toNat_and, n32]
+    have := hi_unchanged x.toNat 65503 0 (by omega) (by decide) (by decide)
+    rw [Nat.or_zero] at this
+    rw [this]
+
 end Lz4V.Props.Leaf
